@@ -341,6 +341,8 @@ theorem act_flow (c : Conn) (f : Bool) (a : Act) (hi : FlowInv c) : FlowInv (act
     · exact hi
   | stopRead => simp only [act]; exact handOff_flow _ _ _ _ _ rfl rfl hi (stopReadInLoop_flow _)
   | startRead => simp only [act]; exact handOff_flow _ _ _ _ _ rfl rfl hi (startReadInLoop_flow _)
+  | setWc k => exact hi.frame ⟨rfl, rfl, rfl, rfl, rfl, rfl⟩
+  | setHwm k m => exact hi.frame ⟨rfl, rfl, rfl, rfl, rfl, rfl⟩
 
 /-! ### callbacks and handlers -/
 
@@ -712,7 +714,7 @@ example :
     (run (step {} .establish) finRun).st = .kDisconnecting ∧
     (run (step {} .establish) finRun).wrote = [1, 2, 3] ∧
     (run (step {} .establish) finRun).trace =
-      [.up, .sysWrite 3 (.took 1), .sysWrite 2 (.took 2), .wc, .sysShutdownWr] := by
+      [.up, .sysWrite 3 (.took 1), .sysWrite 2 (.took 2), .wc 1, .sysShutdownWr] := by
   refine ⟨fresh_default .epoll true true true _ _ [] [] [], ?_, by decide, by decide, by decide, by decide,
     by decide, by decide⟩
   intro i hi
